@@ -89,7 +89,7 @@ def run(rec):
         order = h * R
 
         def L(Pt, scaled=False, inf_rep=None):
-            return CG.to_lib(MK, Pt, g, rng, scale=CG.rand_scale(F, rng) if scaled else None, inf_rep=inf_rep)
+            return CG.to_lib(MK, Pt, g, rng, scale=CG.rand_scale(F, rng) if scaled else None, inf_rep=inf_rep, fq_coeffs=(rng.random() < 0.15))
 
         def sc(cls, Pt, scaled=False, inf_rep=None, nontrivial=True):
             rec.case("g%d:sub:%s" % (g, cls), ("sub", g, Pt, scaled, inf_rep), nontrivial=nontrivial,
